@@ -1,7 +1,7 @@
 """C01 - run_tasks returns exactly each requested task's own computed result."""
 from __future__ import annotations
 
-from pbt import core, dagrun, oracles, specs
+from pbt import core, dagprop, dagrun, oracles, specs
 
 LEVEL = 'exploration'
 DESIGN_REF = 'DESIGN.md 2/C01'
@@ -41,7 +41,7 @@ def check(spec: dict) -> core.CaseResult:
         labels.append('nested_depth>=2')
     if spec['lab'].get('bust_cache'):
         labels.append('bust_cache')
-    return core.CaseResult(findings=findings, nontrivial=nt, labels=tuple(labels), summary=obs.summary())
+    return dagprop.result(obs, findings, nt, labels, hang_is_violation=False, prop='C01')
 
 
 def plan(tier: str) -> list[dict]:
